@@ -60,7 +60,7 @@ ASSUMPTIONS = [
 ]
 MANIFEST = {
     'level': 'exploration',
-    'technique': 'runtime monitoring of the real reactor main loop fed through a harness-owned helper pipe, compared with independent sequential models (line splitter, ack counter, selector evaluator, RIB diff)',
+    'technique': 'runtime monitoring of the real reactor main loop fed through a harness-owned helper pipe, compared with independent sequential models (line splitter, ack counter, selector evaluator, RIB diff); the command stream played by a real helper process of the real daemon with one session established: answer-count monitor, liveness and log monitors',
     'text': 'Seeded command streams are written in arbitrary chunkings on the pipe the real Processes object reads; the real '
     'main loop dispatches them. The monitor checks command order, one terminal reply per command, no RIB change for '
     'rejected commands and selector confinement against its own models. Held means no disagreement on the streams '
